@@ -39,6 +39,11 @@ type Program struct {
 	takenCache   map[*ssa.Function]bool
 	reqTaint     map[ssa.Value]bool
 	alwaysStatus map[*ssa.Function]bool
+	Env          []string
+	bceDone      bool
+	tokCache     *tokenAnalysis
+	bce          []bceSite
+	bceErr       error
 }
 
 type loadOptions struct {
@@ -92,7 +97,7 @@ func load(repo string, opt loadOptions) (*Program, error) {
 	}
 	sort.Slice(pkgs, func(i, j int) bool { return pkgs[i].ID < pkgs[j].ID })
 	prog, spkgs := ssautil.Packages(pkgs, ssa.InstantiateGenerics)
-	p := &Program{Repo: abs, Fset: fset, Pkgs: pkgs, Prog: prog, byName: map[string]*ssa.Function{}}
+	p := &Program{Repo: abs, Fset: fset, Pkgs: pkgs, Prog: prog, byName: map[string]*ssa.Function{}, Env: filtered}
 	for i, sp := range spkgs {
 		if sp == nil {
 			continue
